@@ -7,17 +7,17 @@ package reddit
 // document / body position.
 //@ func IsPostAPI
 //@   property C10
-//@   sweep idx slice div assert
+//@   sweep idx slice div assert extnil
 //@   opaque
 //@   modifies models.URL::*!Hops!Redirects
 //@ func ExtractAPIPostPermalinks
 //@   property C10
-//@   sweep idx slice div assert
+//@   sweep idx slice div assert extnil
 //@   opaque
 //@   modifies models.URL::*!Hops!Redirects
 //@   ensures [fresh-urls] freshslice(result0) && forall(j, 0, len(result0), result0[j] == nil || fresh(result0[j])) // assumed: the extractor builds a new list of new URL objects, it never hands back the page's own URL object
 //@ func IsRedditURL
 //@   property C10
-//@   sweep idx slice div assert
+//@   sweep idx slice div assert extnil
 //@   opaque
 //@   modifies models.URL::*!Hops!Redirects
